@@ -427,6 +427,13 @@ func runOwner(tr *sim.Trace, seg int, seed int64, sc oscen) ostatus {
 			if !nw.waitInFlight(2, expectBound) {
 				fail("the first round of queries never appeared")
 			}
+			if sc.Owner == "Bootstrap" && st.Skip == "" {
+				// a second bootstrap while the first is running is refused; the refused call must leave nothing behind
+				// either (the census at the end of the scenario sees what it left)
+				if _, err := srv.Bootstrap(); err == nil {
+					fail("an overlapping Bootstrap call was not refused")
+				}
+			}
 			if sc.Point >= 2 && st.Skip == "" {
 				nw.release()
 				if !nw.waitInFlight(2, expectBound) {
